@@ -87,11 +87,6 @@ structure HeadB (τ : Trivia) (inp : List Char) (sD : Bool) (p : Nat) (al : Opti
   dirsB : ∀ fuel, (rHead τ sD p al n args dirs).length ≤ fuel →
     optDirs (Ctx.spec inp) fuel oD = .ok (wpDirs τ inp sD (hOffD τ sD p al n args dirs) dirs)
 
-theorem nameStart_not_punct {d : Char} (h : nameStart d) :
-    d ≠ '(' ∧ d ≠ ')' ∧ d ≠ '@' ∧ d ≠ ':' ∧ d ≠ '{' ∧ d ≠ '}' ∧ d ≠ '.' ∧ d ≠ '$' ∧ d ≠ '=' ∧ d ≠ '!' ∧ d ≠ '[' ∧
-      d ≠ ']' ∧ d ≠ '|' ∧ d ≠ '&' ∧ d ≠ '"' ∧ d ≠ '#' ∧ d ≠ '*' := by
-  refine ⟨?_, ?_, ?_, ?_, ?_, ?_, ?_, ?_, ?_, ?_, ?_, ?_, ?_, ?_, ?_, ?_, ?_⟩ <;> (rintro rfl; exact absurd h (by decide))
-
 /-- alias, name, arguments, directives of a `Field`, followed by any continuation `T` of the rule body -/
 theorem headK (τ : Trivia) (hτ : ∀ q, Ws (τ q)) (al : Option (Name × Pos)) (n : Name) (args : List Arg)
     (dirs : List Directive) (hal : ∀ a ∈ al, validName a.1.toList) (hnm : validName n.toList) (hargs : WFFs args)
